@@ -2,6 +2,7 @@
 verification conditions.  The AST executed is the one parsed from /repo on this run.
 """
 import ast
+import os
 import re
 import itertools
 import z3
@@ -130,7 +131,8 @@ class Engine:
         self.contract = contract
         self.registry = registry or {}    # function key -> Contract (callee summaries)
         self.consts = consts or {}
-        self.prune_ms = timeout
+        self.prune_ms = timeout          # budget of the feasibility pruner (PYVC_PRUNE_MS overrides the base value: robustness probe)
+        self.prune2_ms = 60
         self.nprune = 0
         self.obligations = []             # (label, hyps, goal, taint)
         self.inline_depth = 0
@@ -158,7 +160,7 @@ class Engine:
         if r1 == z3.unknown:
             # 2. with the definitions, short budget
             s2 = z3.Solver()
-            s2.set('timeout', 60)
+            s2.set('timeout', getattr(self, 'prune2_ms', 60))
             s2.add(*full)
             if s2.check() == z3.unsat:
                 return None
@@ -1141,7 +1143,7 @@ class Engine:
             paths, pure = [], True
             for (s2, v) in self.ev(g.ifs[0], inner):
                 if isinstance(v, Raise):
-                    pure = False; break
+                    continue        # a raising evaluation is an outcome of the comprehension (reported above); it keeps no element
                 if s2.fields is not inner.fields and any(not s2.fields[a].eq(inner.fields.get(a, field0(a))) for a in s2.fields):
                     pure = False; break
                 if s2.heap != inner.heap and any(k_ not in inner.heap or not (inner.heap[k_] is v_ or (z3.is_expr(v_) and z3.is_expr(inner.heap[k_]) and v_.eq(inner.heap[k_]))) for k_, v_ in s2.heap.items()):
